@@ -188,6 +188,16 @@ impl<VM: VMBinding> Space<VM> for LockFreeImmortalSpace<VM> {
             .verify_metadata_context(std::any::type_name::<Self>(), &self.metadata)
     }
 
+    #[cfg(feature = "verif")]
+    fn verif_side_metadata_specs(
+        &self,
+    ) -> (
+        Vec<crate::util::metadata::side_metadata::SideMetadataSpec>,
+        Vec<crate::util::metadata::side_metadata::SideMetadataSpec>,
+    ) {
+        (self.metadata.global.clone(), self.metadata.local.clone())
+    }
+
     fn enumerate_objects(&self, enumerator: &mut dyn ObjectEnumerator) {
         enumerator.visit_address_range(self.start, self.start + self.total_bytes);
     }
